@@ -115,6 +115,73 @@ def build_catalogue():
 
 
 CATALOGUE = build_catalogue()
+
+# ---- seeded argument generators: the fixed catalogue above is a hand-picked core; half of the calls are
+# drawn from the whole argument space of each function family (every tabulated event code, both
+# genders, random ages and marks, interpolated distances, a few invalid codes)
+WMA_EVENTS = ['50H', '55H', '60H', 'SH', 'LH', 'SC', '1500W', 'MILEW', '3KW', '5KW', '8KW', '10KW', '15KW', '20KW', 'HMW',
+              '25KW', '30KW', '40KW', 'MARW', '50KW', 'HJ', 'PV', 'LJ', 'TJ', 'HT', 'SP', 'DT', 'JT', 'WT', '50', '55', '60',
+              '100', '200', '300', '400', '500', '600', '800', '1000', '1500', 'MILE', '2000', '3000', '2MT', '4000', '3MT',
+              '5000', '6000', '4MT', '8000', '10000', '5MT', '5K', '6K', '4M', '8K', '5M', '10K', '12K', '15K', '10M', '20K',
+              'HM', '25K', '30K', 'MAR', '50K', '50M', '100K', '150K', '100M', '200K']
+WMA_INTERP = ['7K', '9K', '11K', '3M', '6M', '7M', '13K', '16K', '35K', '2K', '3K', '45K', '60K', '1M']
+ATHLON_EVENTS = ['100', '1000', '10000', '100H', '110H', '1500', '200', '200H', '3000', '3000SC', '400', '400H', '5000', '60',
+                 '600', '60H', '800', 'DT', 'HJ', 'HT', 'JT', 'LJ', 'PV', 'SP', 'TJ', 'WT', '80H']
+HUN_EVENTS = ['100', '1000', '10000', '100K', '10K', '10KW', '110H', '100H', '1500', '15K', '200', '2000', '2000SC', '20K', '20KW',
+              '25K', '2M', '300', '3000', '3000SC', '30K', '3KW', '400', '400H', '4X100', '4X200', '4X400', '50', '500', '5000',
+              '50KW', '55', '5KW', '60', '600', '800', 'DEC', 'DT', 'HEP', 'HJ', 'HM', 'HT', 'JT', 'LJ', 'MAR', 'MILE',
+              'PEN', 'PV', 'SP', 'TJ', '50H', '55H', '60H']
+SH_EVENTS = ['SLJ', 'SHJ', 'STJ', 'SP', 'BAL', 'SPB', 'TART', 'OHT', '32H', 'CHT', '100', 'JT', '800']
+AAG_EVENTS = ['100', '200', '400', '800', '1000', '1500', '60H', 'SH', 'LH', 'HJ', 'PV', 'LJ', 'TJ', 'SP', 'DT', 'HT', 'JT', 'WT',
+              '80H', '100H', '110H', '300H', '400H', '150H']
+
+
+def gen_call(rng, grp):
+    r = rng
+    if grp in ('wma2023', 'wma2015'):
+        yk = {'year': 2015} if grp == 'wma2015' else {}
+        g = r.choice(['m', 'f', 'm', 'f', 'M', 'F'])
+        x = r.random()
+        ev = r.choice(WMA_EVENTS) if x < 0.75 else r.choice(WMA_INTERP) if x < 0.95 else r.choice(['XYZ', '', '4X100'])
+        age = r.choice([r.randint(30, 100), r.randint(5, 110), r.choice([35, 40, 50, 62.5, 0, 101])])
+        k = r.random()
+        if k < 0.5:
+            return c('wma_age_factor', g, age, ev, **yk)
+        if k < 0.75:
+            return c('wma_world_best', g.lower(), ev, **yk)
+        perf = r.choice(['16:23', '2:05:10', '12.5', '1.50', '45.20', '9.87', '31:02.5'])
+        return c('wma_age_grade', g, age, ev, perf, **yk)
+    if grp == 'athlon':
+        g = r.choice(['M', 'F'])
+        ev = r.choice(ATHLON_EVENTS) if r.random() < 0.95 else 'XYZ'
+        k = r.random()
+        if k < 0.45:
+            return c('athlon_score', g, ev, round(r.uniform(1.0, 300.0), 2))
+        if k < 0.6:
+            return c('athlon_score', g, ev, round(r.uniform(1.0, 300.0), 2), age=r.choice([35, 40, 47, 55, 63, 70, 81]))
+        if k < 0.65:
+            return c('athlon_score', g, ev, round(r.uniform(100.0, 160.0), 2), esaa=True)
+        return c('athlon_performance_needed', g, ev, r.choice([0, 1, 400, 750, 1000, 1250, -3]))
+    if grp == 'hungarian':
+        return c('hungarian_score', r.choice(['M', 'F', 'M', 'F', 'X']), r.choice(['OUT', 'OUT', 'IND', 'XX']) if r.random() < 0.97 else 'IN',
+                 r.choice(HUN_EVENTS), round(r.uniform(1.0, 9000.0), 2))
+    if grp == 'sportshall':
+        ev = r.choice(SH_EVENTS) if r.random() < 0.95 else 'XX'
+        return c('sportshall_score', ev if r.random() < 0.9 else ev.lower(), '%.2f' % r.uniform(0.3, 300.0))
+    if grp == 'aag':
+        if r.random() < 0.9:
+            return c('wma_athlon_age_factor', r.choice(['M', 'F', 'm', 'f']), r.choice([r.randint(30, 105), 35, 66, 69.5]),
+                     r.choice(AAG_EVENTS) if r.random() < 0.95 else 'XYZ')
+        return c('wma_athlon_age_grade', r.choice(['m', 'f']), r.randint(35, 90), r.choice(AAG_EVENTS), '12.5')
+    return None
+
+
+def pick_call(rng, grp):
+    if rng.random() < 0.5:
+        g = gen_call(rng, grp)
+        if g is not None:
+            return g
+    return rng.choice(CATALOGUE[grp])
 GROUP_WEIGHTS = [('athlon', 16), ('hungarian', 12), ('sportshall', 8), ('wma2023', 18), ('wma2015', 12),
                  ('aag', 10), ('schema', 18), ('control', 6)]
 VARIANTS = [('first', 40), ('warm', 35), ('cachefull', 25)]
@@ -173,7 +240,7 @@ def _gen_scenario(rng):
     mixed = rng.random() < 0.25
     equal = rng.random() < 0.3
     programs = []
-    base_call = rng.choice(CATALOGUE[grp])
+    base_call = pick_call(rng, grp)
     for t in range(nthreads):
         ncalls = 1 if nthreads == 3 else (1 if rng.random() < 0.6 else 2)
         prog = []
@@ -185,7 +252,7 @@ def _gen_scenario(rng):
                 prog.append(rng.choice(earlier))        # same arguments again (same cache key, same table row)
             else:
                 g = weighted(rng, GROUP_WEIGHTS) if mixed else grp
-                prog.append(rng.choice(CATALOGUE[g]))
+                prog.append(pick_call(rng, g))
         programs.append(prog)
     return {'variant': variant, 'programs': programs, 'group': grp if not mixed else 'mixed'}
 
@@ -653,6 +720,10 @@ def prepare_athlib():
     import athlib.utils  # noqa
     mods = [m for name, m in sorted(sys.modules.items()) if name == 'athlib' or name.startswith('athlib.')]
     n = thrsched.install_lock_seam(mods)
+    # every run happens in a forked (grand)child: keep the garbage collector from touching the ~90 MB
+    # of imported objects there (copy-on-write page copies were a quarter of the cost of a run)
+    import gc
+    gc.collect(); gc.freeze()
     return athlib, n
 
 
